@@ -71,6 +71,9 @@ type Knobs struct {
 	Overrides    bool // capacity / overhead overrides on offerings
 	MinPools     int
 	NoDaemonSets bool
+	SingleTerm    bool // at most one required node-affinity term (no OR alternatives)
+	FriendlyPools bool // fewer taints / requirements so that several pools can host a pod
+	EasyPods      bool // mostly small pods with few selectors
 }
 
 func DefaultKnobs() Knobs {
@@ -185,6 +188,12 @@ var startupTaint = corev1.Taint{Key: "startup.ex.io/agent", Effect: corev1.Taint
 
 func Pool(t *rapid.T, i int, k Knobs) *v1.NodePool {
 	l := fmt.Sprintf("pool%d", i)
+	sc := func(p int) int {
+		if k.FriendlyPools {
+			return p / 2
+		}
+		return p
+	}
 	np := &v1.NodePool{ObjectMeta: metav1.ObjectMeta{Name: fmt.Sprintf("p%d", i), UID: types.UID(fmt.Sprintf("pool-uid-%d", i))}}
 	np.Spec.Template.Spec.NodeClassRef = sim.NodeClassRef()
 	np.Spec.Template.Spec.ExpireAfter = v1.MustParseNillableDuration("Never")
@@ -192,21 +201,21 @@ func Pool(t *rapid.T, i int, k Knobs) *v1.NodePool {
 	np.Spec.Disruption.ConsolidationPolicy = v1.ConsolidationPolicyWhenEmptyOrUnderutilized
 	np.Spec.Disruption.Budgets = []v1.Budget{{Nodes: "100%"}}
 	var reqs []v1.NodeSelectorRequirementWithMinValues
-	if pct(t, 45, l+"_zoneReq") {
+	if pct(t, sc(45), l+"_zoneReq") {
 		op := pick(t, []corev1.NodeSelectorOperator{corev1.NodeSelectorOpIn, corev1.NodeSelectorOpIn, corev1.NodeSelectorOpNotIn}, l+"_zoneOp")
 		reqs = append(reqs, req(corev1.LabelTopologyZone, op, subset(t, Zones, 1, l+"_zones")...))
 	}
-	if pct(t, 40, l+"_ctReq") {
+	if pct(t, sc(40), l+"_ctReq") {
 		cts := append([]string{}, CTs...)
 		if k.Reserved {
 			cts = append(cts, v1.CapacityTypeReserved)
 		}
 		reqs = append(reqs, req(v1.CapacityTypeLabelKey, corev1.NodeSelectorOpIn, subset(t, cts, 1, l+"_cts")...))
 	}
-	if pct(t, 20, l+"_archReq") {
+	if pct(t, sc(20), l+"_archReq") {
 		reqs = append(reqs, req(corev1.LabelArchStable, corev1.NodeSelectorOpIn, subset(t, Archs, 1, l+"_archs")...))
 	}
-	if pct(t, 30, l+"_famReq") {
+	if pct(t, sc(30), l+"_famReq") {
 		switch rapid.IntRange(0, 3).Draw(t, l+"_famOp") {
 		case 0:
 			reqs = append(reqs, req(sim.LabelFamily, corev1.NodeSelectorOpNotIn, subset(t, Families, 1, l+"_fams")...))
@@ -221,7 +230,7 @@ func Pool(t *rapid.T, i int, k Knobs) *v1.NodePool {
 			reqs = append(reqs, r)
 		}
 	}
-	if pct(t, 25, l+"_genReq") {
+	if pct(t, sc(25), l+"_genReq") {
 		switch rapid.IntRange(0, 3).Draw(t, l+"_genOp") {
 		case 0:
 			reqs = append(reqs, req(sim.LabelGen, corev1.NodeSelectorOpGt, pick(t, []string{"0", "1", "2"}, l+"_genGt")))
@@ -255,8 +264,12 @@ func Pool(t *rapid.T, i int, k Knobs) *v1.NodePool {
 		np.Spec.Template.Labels = labels
 	}
 	np.Spec.Template.Spec.Requirements = reqs
+	taintPct := 12
+	if k.FriendlyPools {
+		taintPct = 6
+	}
 	for j, tt := range poolTaints {
-		if pct(t, 14, fmt.Sprintf("%s_taint%d", l, j)) {
+		if pct(t, taintPct, fmt.Sprintf("%s_taint%d", l, j)) {
 			np.Spec.Template.Spec.Taints = append(np.Spec.Template.Spec.Taints, tt)
 		}
 	}
@@ -371,7 +384,13 @@ func PendingPod(t *rapid.T, idx int, k Knobs) *corev1.Pod {
 		ObjectMeta: metav1.ObjectMeta{Name: fmt.Sprintf("pending-%02d", idx), Namespace: "default", UID: types.UID(fmt.Sprintf("pending-uid-%02d", idx)),
 			Labels:            map[string]string{"app": app},
 			CreationTimestamp: metav1.NewTime(sim.Epoch.Add(-timeSec(rapid.IntRange(1, 4).Draw(t, l+"_age"))))},
-		Spec: corev1.PodSpec{Containers: []corev1.Container{container(t, l, false)}},
+		Spec: corev1.PodSpec{Containers: []corev1.Container{container(t, l, k.EasyPods && pct(t, 70, l+"_easy"))}},
+	}
+	selPct := func(p int) int {
+		if k.EasyPods {
+			return p / 2
+		}
+		return p
 	}
 	if pct(t, 12, l+"_twoContainers") {
 		c2 := container(t, l+"_c2", true)
@@ -389,14 +408,17 @@ func PendingPod(t *rapid.T, idx int, k Knobs) *corev1.Pod {
 	if pct(t, 15, l+"_hostPort") {
 		p.Spec.Containers[0].Ports = []corev1.ContainerPort{hostPort(t, l+"_hp")}
 	}
-	if pct(t, 30, l+"_nodeSelector") {
+	if pct(t, selPct(30), l+"_nodeSelector") {
 		e := selectorExpr(t, l+"_ns")
 		if e.Operator == corev1.NodeSelectorOpIn {
 			p.Spec.NodeSelector = map[string]string{e.Key: e.Values[0]}
 		}
 	}
-	if pct(t, 35, l+"_required") {
+	if pct(t, selPct(35), l+"_required") {
 		n := rapid.IntRange(1, 3).Draw(t, l+"_nTerms")
+		if k.SingleTerm {
+			n = 1
+		}
 		na := &corev1.NodeSelector{}
 		for i := 0; i < n; i++ {
 			na.NodeSelectorTerms = append(na.NodeSelectorTerms, selectorTerm(t, fmt.Sprintf("%s_term%d", l, i)))
@@ -557,7 +579,7 @@ func Node(t *rapid.T, i int, cat []sim.ITSpec, pools []*v1.NodePool) sim.NodeSpe
 	return n
 }
 
-func BoundPod(t *rapid.T, idx int, node string) *corev1.Pod {
+func BoundPod(t *rapid.T, idx int, node string, k Knobs) *corev1.Pod {
 	l := fmt.Sprintf("bound%d", idx)
 	p := &corev1.Pod{
 		ObjectMeta: metav1.ObjectMeta{Name: fmt.Sprintf("bound-%02d", idx), Namespace: "default", UID: types.UID(fmt.Sprintf("bound-uid-%02d", idx)), Labels: map[string]string{"app": pick(t, apps, l+"_app")},
@@ -567,7 +589,7 @@ func BoundPod(t *rapid.T, idx int, node string) *corev1.Pod {
 	if pct(t, 15, l+"_hostPort") {
 		p.Spec.Containers[0].Ports = []corev1.ContainerPort{hostPort(t, l+"_hp")}
 	}
-	if pct(t, 15, l+"_anti") {
+	if k.InterPod > 0 && pct(t, 15, l+"_anti") {
 		p.Spec.Affinity = &corev1.Affinity{PodAntiAffinity: &corev1.PodAntiAffinity{RequiredDuringSchedulingIgnoredDuringExecution: []corev1.PodAffinityTerm{{
 			LabelSelector: &metav1.LabelSelector{MatchLabels: map[string]string{"app": pick(t, apps, l+"_antiApp")}}, TopologyKey: pick(t, []string{corev1.LabelHostname, corev1.LabelTopologyZone}, l+"_antiTopo")}}}}
 	}
@@ -595,7 +617,7 @@ func World(t *rapid.T, k Knobs) *SchedWorld {
 		}
 		nb := rapid.IntRange(0, 2).Draw(t, fmt.Sprintf("node%d_nBound", i))
 		for j := 0; j < nb; j++ {
-			w.Bound = append(w.Bound, BoundPod(t, boundIdx, n.Name))
+			w.Bound = append(w.Bound, BoundPod(t, boundIdx, n.Name, k))
 			boundIdx++
 		}
 	}
